@@ -327,6 +327,13 @@ Definition cleanup_cfg (cfg : cu_cfg) (func0 : bytes) : option bytes :=
 (* the model the check runs: the checked transcription with the constants read from the source *)
 Definition cleanup (func0 : bytes) : option bytes := cleanup_cfg src_cfg func0.
 
+(* The function signature reaches the formatter as a `const char *` that may be the NULL POINTER
+   (QMessageLogContext{nullptr, 0, nullptr, ...}: release builds, QML / scripting callers, a
+   default-constructed LogMessage).  QByteArray(const char* p) / QString(const char* p) /
+   QString::fromLatin1 / fromUtf8 turn the null pointer into the empty string: [cstr]. *)
+Definition cstr {X : Type} (p : option (list X)) : list X := match p with Some s => s | None => [] end.
+Definition cleanup_ptr (func0 : option bytes) : option bytes := cleanup (cstr func0).
+
 (* boolean oracle evaluated on the IMPLEMENTATION's output of %{func}: the checked model ran to
    completion (no out-of-range access, no fuel exhaustion), the implementation produced exactly the
    bytes the checked model produced, and the result is not longer than the input. *)
